@@ -1,6 +1,9 @@
 // C20 harness: etl::pair / etl::tuple / etl::invoke / call wrappers against std:: on the same case
 // lines.  Protocol: see lean/Tetl/C20/Driver.lean.  Part 1: instrumentation, element kinds, pair, tuple.
 #define TETL_ENABLE_CUSTOM_ASSERT_HANDLER 1
+#ifndef C20_HAS_IFN_MEMPTR
+    #define C20_HAS_IFN_MEMPTR 1 // set by checks/props/c20.py from a compile probe of the tree under test
+#endif
 #include "proto.hpp"
 
 #include <etl/functional.hpp>
@@ -82,6 +85,12 @@ static int val(int x) { return x; }
 static int val(Trk const& x) { return x.v; }
 static int val(Mo const& x) { return x.v; }
 static int val(Co const& x) { return x.v; }
+// an argument that arrives as a reference_wrapper: the value is the referent's, the category letter is upper case
+template <typename T> struct is_refw : std::false_type { };
+template <typename T> struct is_refw<std::reference_wrapper<T>> : std::true_type { };
+template <typename T> struct is_refw<etl::reference_wrapper<T>> : std::true_type { };
+template <typename T> static int val(std::reference_wrapper<T> const& w) { return val(w.get()); }
+template <typename T> static int val(etl::reference_wrapper<T> const& w) { return val(w.get()); }
 
 // element kind K -> element type, and the value type the element is made from / bound to
 template <int K>
@@ -146,8 +155,9 @@ template <typename A>
 constexpr char cat_of()
 {
     using R = std::remove_reference_t<A>;
-    if constexpr (std::is_lvalue_reference_v<A>) { return std::is_const_v<R> ? 'c' : 'l'; }
-    else { return std::is_const_v<R> ? 'k' : 'r'; }
+    constexpr bool w = is_refw<std::remove_cv_t<R>>::value;
+    if constexpr (std::is_lvalue_reference_v<A>) { return std::is_const_v<R> ? (w ? 'C' : 'c') : (w ? 'L' : 'l'); }
+    else { return std::is_const_v<R> ? (w ? 'K' : 'k') : (w ? 'R' : 'r'); }
 }
 template <typename... A>
 static long long record(int tid, char self, A&&... a)
@@ -296,6 +306,16 @@ static std::string pair_op(std::string const& op, std::vector<long long> const& 
             g_copies = 0;
             P r(x, y);
             return res(pvals(r), fmt_vals({val(x), val(y)}), proto::fmt_list(b));
+        } else return na;
+    }
+    if (op == "dflt") {
+        constexpr bool ok = (K1 == 0 || K1 == 5) && (K2 == 0 || K2 == 5);
+        static_assert(std::is_default_constructible_v<std::pair<elem_t<K1>, elem_t<K2>>> == ok);
+        static_assert(std::is_default_constructible_v<P> == ok);
+        if constexpr (ok) {
+            g_copies = 0;
+            P r{};
+            return res(pvals(r), proto::fmt_list(a), proto::fmt_list(b));
         } else return na;
     }
     if (op == "ctorr") {
@@ -558,6 +578,14 @@ static std::string tuple_op(std::string const& op, std::vector<long long> const&
             }
         } else return na;
     }
+    if (op == "dflt") {
+        static_assert(std::is_default_constructible_v<T> == (K == 0 || K == 5));
+        if constexpr (K == 0 || K == 5) {
+            g_copies = 0;
+            T r{};
+            return res(O::tvals(r), proto::fmt_list(a), bs);
+        } else return na;
+    }
     if (op == "copy") {
         if constexpr (std::is_copy_constructible_v<T>) {
             O o(av);
@@ -656,7 +684,9 @@ static std::string tuple_eq_apply(std::string const& op, Line const& l)
     auto t = mk(std::type_identity<TT>{}, a);
     Fob f{7};
     g_log.clear();
-    long long r = with_cat(l.i("q"), t, [&](auto&& tt) -> long long { return L::apply(f, FWD(tt)); });
+    long long r = with_cat(l.i("c", 0), f, [&](auto&& ff) -> long long {
+        return with_cat(l.i("q"), t, [&](auto&& tt) -> long long { return L::apply(FWD(ff), FWD(tt)); });
+    });
     return "r=" + std::to_string(r) + " log=" + fmt_log();
 }
 
@@ -665,6 +695,12 @@ static std::string tuple_line(Line const& l)
 {
     auto const& op = l.str("op");
     auto const& a  = l.list("a");
+    if (op == "eq" && a.empty() && l.list("b").empty()) {
+        typename L::template tuple<> x{}, y{};
+        bool e = x == y, ne = x != y;
+        if (e == ne) return "!ne";
+        return proto::fmt_bool(e);
+    }
     if (a.empty() || a.size() > 3) return "bad-op";
     if (op == "eq" || op == "apply") {
         if (op == "eq" && l.list("b").size() != a.size()) return "bad-op";
@@ -872,17 +908,57 @@ static std::string fref_line(Line const& l, bool ifn2)
     g_log.clear();
     g_copies    = 0;
     long long r = 0;
+    if (ifn2 && l.has("f")) {
+        // an owning wrapper around a pointer to member: called through INVOKE with the object as first argument
+        auto const& ff = l.str("f");
+        Sc s;
+        if (ff == "memfn") {
+            if (x.size() != 1) return "bad-op";
+            using Sg = long long(Sc&, int);
+            if constexpr (Etl) {
+#if C20_HAS_IFN_MEMPTR
+                etl::inplace_function<Sg, 32> w{static_cast<pmf_l>(&Sc::q)};
+                auto w2 = w;
+                r       = w2(s, static_cast<int>(x[0]));
+#else
+                return "nc"; // does not compile: the invoke thunk calls (*p)(args...) although the constructor accepts INVOKE-able types
+#endif
+            } else {
+                std::function<Sg> w{static_cast<pmf_l>(&Sc::q)};
+                auto w2 = w;
+                r       = w2(s, static_cast<int>(x[0]));
+            }
+        } else if (ff == "memdata") {
+            if (!x.empty()) return "bad-op";
+            s.dm     = static_cast<int>(l.i("v"));
+            using Sg = int(Sc&);
+            if constexpr (Etl) {
+#if C20_HAS_IFN_MEMPTR
+                etl::inplace_function<Sg, 32> w{&Sc::dm};
+                r = w(s);
+#else
+                return "nc";
+#endif
+            } else {
+                std::function<Sg> w{&Sc::dm};
+                r = w(s);
+            }
+        } else return "bad-op";
+        return "r=" + std::to_string(r) + " log=" + fmt_log() + " cp=" + std::to_string(g_copies);
+    }
     if (f == "fob") {
         auto const& xc = l.list("xc");
         if (x.size() != 3 || xc.size() != 1 || c > 1) return "bad-op";
         using Sig = long long(Trk, Trk&, Trk const&);
         Trk a(static_cast<int>(x[0])), b(static_cast<int>(x[1])), d(static_cast<int>(x[2]));
-        bool lv = xc[0] == 0 || xc[0] == 1;
+        if (xc[0] < 0 || xc[0] > 3) return "bad-op";
+        bool lv = xc[0] != 2; // the by-value parameter is copied from an lvalue and from a const rvalue
         Fob fo{ifn2 ? 8 : 4};
         g_copies = 0;
         auto call = [&](auto& w) -> long long {
             if (xc[0] == 0) return w(a, b, d);
             if (xc[0] == 1) return w(std::as_const(a), b, d);
+            if (xc[0] == 3) return w(std::move(std::as_const(a)), b, d);
             return w(std::move(a), b, d);
         };
         if constexpr (Etl) {
@@ -992,13 +1068,30 @@ static std::string bf_line(Line const& l)
         if (b.size() > 2 || x.size() > 2 || xc.size() != x.size()) return "bad-op";
         std::pair<Trk, Trk> a{Trk(x.size() > 0 ? static_cast<int>(x[0]) : 0), Trk(x.size() > 1 ? static_cast<int>(x[1]) : 0)};
         Trk b0(b.size() > 0 ? static_cast<int>(b[0]) : 0), b1(b.size() > 1 ? static_cast<int>(b[1]) : 0);
+        std::vector<long long> br = l.has("br") ? l.list("br") : std::vector<long long>(b.size(), 0);
+        std::string act = l.has("act") ? l.str("act") : std::string("call");
+        if (br.size() != b.size() || (act != "call" && act != "copy" && act != "move")) return "bad-op";
         auto go = [&](auto g) -> long long {
-            bcp = g_copies;
-            return with_cat(q, g, [&](auto&& gg) -> long long { return call_fwd(FWD(gg), xc, a); });
+            auto run = [&](auto& w) -> long long {
+                bcp = g_copies;
+                return with_cat(q, w, [&](auto&& gg) -> long long { return call_fwd(FWD(gg), xc, a); });
+            };
+            if (act == "copy") { auto g2 = g; return run(g2); }
+            if (act == "move") { auto g2 = std::move(g); return run(g2); }
+            return run(g);
         };
+        // a bound argument: the instrumented object as lvalue (bl=1) / rvalue (bl=0), or ref(int object) when br[i]=1
+        // (a plain int referent: an implementation that unwraps the reference_wrapper into T& still compiles and is told apart by the log)
+        int i0 = b.size() > 0 ? static_cast<int>(b[0]) : 0, i1 = b.size() > 1 ? static_cast<int>(b[1]) : 0;
+        auto r0 = br.size() > 0 && br[0] == 1, r1 = br.size() > 1 && br[1] == 1;
         g_copies = 0;
         if (b.size() == 0) r = go(L::bind_front(Fob{6}));
-        else if (b.size() == 1) r = bl ? go(L::bind_front(Fob{6}, b0)) : go(L::bind_front(Fob{6}, std::move(b0)));
+        else if (b.size() == 1) {
+            if (r0) r = go(L::bind_front(Fob{6}, L::ref(i0)));
+            else r = bl ? go(L::bind_front(Fob{6}, b0)) : go(L::bind_front(Fob{6}, std::move(b0)));
+        } else if (r0 && r1) r = go(L::bind_front(Fob{6}, L::ref(i0), L::ref(i1)));
+        else if (r0) r = bl ? go(L::bind_front(Fob{6}, L::ref(i0), b1)) : go(L::bind_front(Fob{6}, L::ref(i0), std::move(b1)));
+        else if (r1) r = bl ? go(L::bind_front(Fob{6}, b0, L::ref(i1))) : go(L::bind_front(Fob{6}, std::move(b0), L::ref(i1)));
         else r = bl ? go(L::bind_front(Fob{6}, b0, b1)) : go(L::bind_front(Fob{6}, std::move(b0), std::move(b1)));
     } else if (f == "fn") {
         if (b.size() + x.size() != 2) return "bad-op";
@@ -1017,7 +1110,11 @@ static std::string nf_line(Line const& l)
     if (x.size() != xc.size() || x.size() > 2) return "bad-op";
     std::pair<Trk, Trk> a{Trk(x.size() > 0 ? static_cast<int>(x[0]) : 0), Trk(x.size() > 1 ? static_cast<int>(x[1]) : 0)};
     g_log.clear();
-    auto g = L::not_fn(Pred{4, l.i("p") == 1});
+    std::string act = l.has("act") ? l.str("act") : std::string("call");
+    if (act != "call" && act != "copy" && act != "move") return "bad-op";
+    auto g0 = L::not_fn(Pred{4, l.i("p") == 1});
+    auto g1 = g0;            // a copy calls an equivalent target
+    auto g  = act == "copy" ? g1 : (act == "move" ? decltype(g0)(std::move(g0)) : g0);
     bool r = with_cat(l.i("q"), g, [&](auto&& gg) -> bool {
         auto& [a0, a1] = a;
         if (xc.size() == 0) return FWD(gg)();
@@ -1241,6 +1338,10 @@ static std::string typeq_line(Line const& l)
     if (q == "tuple_move_assignable") return yes(std::is_move_assignable_v<TI>);
     if (q == "tuple_get_by_type") return yes(has_get_by_type<TI>);
     if (q == "tuple_structured_binding") return yes(has_std_tuple_size<TI>);
+    if (q == "pair_get_by_type") return yes(has_get_by_type<typename L::template pair<int, long>>);
+    if (q == "tuple_converting_ctor")
+        return yes(std::is_constructible_v<typename L::template tuple<long, long>, typename L::template tuple<int, int> const&>
+                   && std::is_constructible_v<TI, typename L::template pair<int, long> const&>);
     if (q == "pair_ref_copy_assignable") return yes(std::is_copy_assignable_v<typename L::template pair<int&, int>>);
     return "bad-op";
 }
